@@ -81,79 +81,171 @@ class SubopModel:
         return 0xB000
 
 
+class _CancelOp:
+    """Bookkeeping for one operation that is in progress (C23)."""
+
+    def __init__(self, key, msg_id):
+        self.key, self.msg_id = key, msg_id
+        self.served = False  # the service class has started running it
+        self.behind = False  # its request was received while ANOTHER operation was being served (pipelined peer)
+        self.counts = False  # 'in progress' in the sense of the rule (cancels naming it are for it)
+        self.matching_arrived = False  # a cancel naming the operation arrived while it was in progress
+        self.reported = False  # is_cancelled has already been True for it
+        self.unreported = []  # [window, distinct IDs pending before it arrived, a later request was received since]
+        self.others_during = 0
+        self.stale_same_id = False
+        self.pending = set()  # distinct IDs received while the service class runs it and not reported (label only)
+        self.max_pending = 0
+        self.polls = 0
+        self.polled_before_match = False
+        self.ambiguous = False  # a cancel named this and another in-progress operation with the same ID: unconstrained
+        self.request_received_while_pending = False  # label: a later request arrived while a matching cancel was unreported
+
+
 class CancelModel:
     """Which C-CANCELs an operation's handler must / must not see (C23).
 
-    Fed with the recorded history: start(msg_id) / cancel(id, window) / polled(result) / end().
-    window: "idle" (no operation in progress), "queued" (request received by the DIMSE provider, not yet
-    dispatched), "during" (the service class is running the operation)."""
+    Fed with the recorded history.  Several operations can be in progress at once (a pipelining peer: the request of
+    the next operation is received while the current one is still being served):
 
-    def __init__(self):
-        self.in_progress = None
-        self.seen_earlier = set()  # IDs of every cancel received before the current operation started
-        self._reset()
+        receive(key, msg_id)   the DIMSE provider has completely received the operation's request
+        serve(key)             the request is dispatched to the service class (at most one operation is served at a time)
+        cancel(id)             a C-CANCEL naming `id` has been received   -> "matching" | "other" (label)
+        expect_poll(key) / polled(key, result)
+        end(key)               _serve_request returned
 
-    def _reset(self):
-        self.matching_arrived = False  # a cancel naming the operation arrived while it was in progress
-        self.reported = False  # is_cancelled has already been True for it
-        self.unreported = []  # (window, distinct IDs pending before it arrived) of matching cancels not yet reported
-        self.others_during = 0
-        self.stale_same_id = False
-        self.pending = set()  # distinct IDs received while the service class runs and not reported (label only)
-        self.max_pending = 0
-        self.received = set()
-        self.polls = 0
-        self.polled_before_match = False
+    rule "receipt" (the stated assumption of props/c23.py): an operation is in progress from receive() to end(), so a
+    cancel naming its ID that arrives after its request - also while an earlier operation is still being served - is
+    for it; everything that arrived before receive() is stale.
+    rule "served": an operation is in progress from serve() to end(); cancels that arrive earlier are stale.
 
-    def start(self, msg_id):
-        self._reset()
-        self.in_progress = msg_id
-        self.stale_same_id = msg_id in self.seen_earlier
+    The sequential interface of the first version (start / cancel(id, window) / expect_poll() / polled(r) / end()) is
+    kept: start() = receive(), the current operation is the most recently received one.
+    window labels (derived here, not trusted from the caller): "queued" = received, nothing being served;
+    "queued-behind" = received while another operation is being served; "during" = being served."""
 
-    def end(self):
-        self.seen_earlier |= self.received
-        self.in_progress = None
+    def __init__(self, rule="receipt"):
+        assert rule in ("receipt", "served")
+        self.rule = rule
+        self.ops = {}  # key -> _CancelOp for every operation received and not ended (insertion order)
+        self.serving = None
+        self.seen = set()  # IDs of every cancel received so far
+        self._auto = 0
+        self._last = None
 
-    def cancel(self, msg_id, window):
-        if self.in_progress is None:
-            self.seen_earlier.add(msg_id)
-            return
-        self.received.add(msg_id)
-        before = len(self.pending)
-        if window == "during":
-            self.pending.add(msg_id)
-            self.max_pending = max(self.max_pending, len(self.pending))
-        if msg_id == self.in_progress:
-            self.matching_arrived = True
-            self.unreported.append((window, before))
-            if self.polls:
-                self.polled_before_match = True
-        else:
-            self.others_during += 1
+    # ---- events
+    def receive(self, key, msg_id):
+        o = _CancelOp(key, msg_id)
+        o.behind = self.serving is not None
+        self.ops[key] = o
+        self._last = key
+        if self.rule == "receipt":
+            self._begin(o)
+        # label: an operation in progress still has an unreported matching cancel when this (later) request comes in
+        for cur in self.ops.values():
+            if cur is o:
+                continue
+            for u in cur.unreported:
+                u[2] = True
+            if cur.unreported:
+                cur.request_received_while_pending = True
+        return o
 
-    def expect_poll(self):
-        """-> True (must report), False (must not report) or None (unconstrained: already reported once)."""
-        if not self.matching_arrived:
+    def _begin(self, o):
+        o.counts = True
+        o.stale_same_id = o.msg_id in self.seen
+
+    def serve(self, key):
+        o = self.ops[key]
+        o.served = True
+        self.serving = key
+        if self.rule == "served":
+            self._begin(o)
+
+    def end(self, key=None):
+        key = self._last if key is None else key
+        self.ops.pop(key, None)
+        if self.serving == key:
+            self.serving = None
+        if self._last == key:
+            self._last = next(reversed(self.ops), None) if self.ops else None
+
+    def cancel(self, msg_id, window=None):
+        named = [o for o in self.ops.values() if o.counts and o.msg_id == msg_id]
+        for o in self.ops.values():
+            if not o.counts:
+                continue
+            w = "during" if o.key == self.serving else ("queued-behind" if self.serving is not None else "queued")
+            before = len(o.pending)
+            if w == "during":
+                o.pending.add(msg_id)
+                o.max_pending = max(o.max_pending, len(o.pending))
+            if o.msg_id == msg_id:
+                if len(named) > 1:
+                    o.ambiguous = True
+                o.matching_arrived = True
+                o.unreported.append([w, before, False])
+                if o.polls:
+                    o.polled_before_match = True
+            else:
+                o.others_during += 1
+        self.seen.add(msg_id)
+        return "matching" if named else "other"
+
+    def expect_poll(self, key=None):
+        """-> True (must report), False (must not report) or None (unconstrained: already reported once / ambiguous)."""
+        o = self.ops[self._last if key is None else key]
+        if o.ambiguous:
+            return None
+        if not o.matching_arrived:
             return False
-        if not self.reported:
+        if not o.reported:
             return True
         return None
 
-    def polled(self, result):
-        self.polls += 1
+    def polled(self, *args):
+        key, result = (self._last, args[0]) if len(args) == 1 else args
+        o = self.ops[key]
+        o.polls += 1
         if result:
-            self.reported = True
-            self.unreported = []
-            self.pending.discard(self.in_progress)
+            o.reported = True
+            o.unreported = []
+            o.pending.discard(o.msg_id)
 
-    def miss_cause(self):
+    def op(self, key=None):
+        return self.ops[self._last if key is None else key]
+
+    def miss_cause(self, key=None):
         """Structural label for a matching cancel that was not reported."""
-        during = [b for w, b in self.unreported if w == "during"]
+        o = self.op(key)
+        during = [u for u in o.unreported if u[0] == "during"]
+        if o.unreported and all(u[2] for u in o.unreported):
+            return "in-progress:later-request-received-before-poll"
         if not during:
+            if any(u[0] == "queued-behind" for u in o.unreported):
+                return "received-before-dispatch:behind-running-operation"
             return "received-before-dispatch"
-        if all(b >= 10 for b in during):
+        if all(u[1] >= 10 for u in during):
             return "in-progress:>=10-other-cancels-pending"
         return "in-progress:<10-cancels-pending"
 
-    def describe(self):
-        return ", ".join(f"{w} with {b} distinct cancel IDs pending" for w, b in self.unreported)
+    def describe(self, key=None):
+        return ", ".join(f"{w} with {b} distinct cancel IDs pending" + (", a later request received since" if r else "") for w, b, r in self.op(key).unreported)
+
+    # ---- sequential interface (one operation at a time)
+    def start(self, msg_id):
+        self._auto += 1
+        self.receive(("seq", self._auto), msg_id)
+
+    @property
+    def in_progress(self):
+        return None if self._last is None else self.ops[self._last].msg_id
+
+    def __getattr__(self, name):
+        # matching_arrived, others_during, stale_same_id, max_pending, polled_before_match ... of the current operation
+        if name.startswith("_") or name in ("ops", "rule", "serving", "seen"):
+            raise AttributeError(name)
+        last = self.__dict__.get("_last")
+        if last is None:
+            raise AttributeError(name)
+        return getattr(self.ops[last], name)
